@@ -187,7 +187,7 @@ func (C19) Gen(rng *core.Rng, tier string, idx int) *core.Scenario {
 		late, lateRound := -1, 0
 		// (not before the channel has started, i.e. after the master's second segment: a track that registers
 		// earlier without media crashes the channel goroutine even sequentially - that is C17's finding)
-		if len(c.Tracks) > 2 && rng.Chance(0.25) && !w.Preinit && nMedia >= 3 {
+		if len(c.Tracks) > 2 && rng.Chance(0.45) && !w.Preinit && nMedia >= 3 {
 			late = 1 + rng.Intn(len(c.Tracks)-1)
 			lateRound = 3 + rng.Intn(nMedia-2)
 		}
@@ -253,6 +253,23 @@ func (C19) Gen(rng *core.Rng, tier string, idx int) *core.Scenario {
 				ups[0].Park = []string{"receiver.channel-miss", "receiver.stream-miss"}
 				ups[1].Park = []string{"receiver.channel-miss", "receiver.stream-miss"}
 				parkedIdx = []int{0, 1, 0, 1}
+			case first && pattern < 10 && len(ups) >= 2 && rng.Chance(0.8): // two first uploads parked before the same k-th lock acquisition
+				k := fmt.Sprintf("lock#%d", rng.Range(1, 8))
+				ups[0].Park, ups[1].Park = []string{k}, []string{k}
+				parkedIdx = []int{0, 1}
+			case !first && late >= 0 && round == lateRound && rng.Chance(0.6): // media uploads parked before a lock acquisition while the late track registers
+				for i := range ups {
+					if !ups[i].Init && rng.Chance(0.7) {
+						ups[i].Park = []string{fmt.Sprintf("lock#%d", core.Pick(rng, []int{2, 3, 4, 4, 5, 5, 6, 7, 8, 10, 12}))}
+						parkedIdx = append(parkedIdx, i)
+					}
+				}
+			case !first && rng.Chance(0.25) && len(ups) >= 2: // later rounds: one or two uploads parked before some lock acquisition
+				n := rng.Range(1, 2)
+				for i := 0; i < n; i++ {
+					ups[i].Park = []string{fmt.Sprintf("lock#%d", rng.Range(1, 12))}
+					parkedIdx = append(parkedIdx, i)
+				}
 			case !first && late >= 0 && round == lateRound && rng.Chance(0.5): // late joiner's init parks before registering
 				for i := range ups {
 					if ups[i].Init {
@@ -406,7 +423,8 @@ func (C19) Run(t *testing.T, sc *core.Scenario, res *core.Result) {
 	if err != nil {
 		panic(err)
 	}
-	rapp.SimYield = nil
+	ygInstallOnce.Do(func() { rapp.SimYield = ygDispatch })
+	ygSetCurrent(nil)
 	if !recvWaitNoChannels() {
 		panic("harness: channel goroutines of an earlier run are still alive")
 	}
@@ -494,7 +512,7 @@ func (C19) Run(t *testing.T, sc *core.Scenario, res *core.Result) {
 		clientOpUp[ci] = append(clientOpUp[ci], ui)
 	}
 	runner := newYgRunner(clients)
-	rapp.SimYield = runner.Yield
+	ygSetCurrent(runner)
 	runner.Start()
 	type stepRec struct {
 		client int
@@ -503,7 +521,7 @@ func (C19) Run(t *testing.T, sc *core.Scenario, res *core.Result) {
 	var steps []stepRec
 	const watchdog = 20 * time.Second
 	parkedNow := map[int]string{} // client -> point
-	overlapChannelMiss, parkedStream, parkedChannel := false, false, false
+	overlapChannelMiss, parkedStream, parkedChannel, parkedLock := false, false, false, false
 	poolsNeutral := true
 	doStep := func(ci int) bool {
 		// no pooled object and no pool clock may carry one operation's history into the next one
@@ -522,7 +540,11 @@ func (C19) Run(t *testing.T, sc *core.Scenario, res *core.Result) {
 		delete(parkedNow, ci)
 		if st.Parked != "" {
 			parkedNow[ci] = st.Parked
-			res.Count("fault.park." + strings.TrimPrefix(st.Parked, "receiver."))
+			if strings.HasPrefix(st.Parked, "lock#") {
+				res.Count("fault.park.before-lock")
+			} else {
+				res.Count("fault.park." + strings.TrimPrefix(st.Parked, "receiver."))
+			}
 			if st.Parked == "receiver.channel-miss" {
 				parkedChannel = true
 				n := 0
@@ -534,6 +556,8 @@ func (C19) Run(t *testing.T, sc *core.Scenario, res *core.Result) {
 				if n >= 2 {
 					overlapChannelMiss = true
 				}
+			} else if strings.HasPrefix(st.Parked, "lock#") {
+				parkedLock = true
 			} else {
 				parkedStream = true
 			}
@@ -593,7 +617,7 @@ runLoop:
 		return
 	}
 	runner.Finish()
-	rapp.SimYield = nil
+	ygSetCurrent(nil)
 	g, quiet := recvQuiesce()
 	conc.Channels = g
 	if !quiet || !conc.Quiet {
@@ -671,6 +695,10 @@ runLoop:
 	switch {
 	case overlapChannelMiss:
 		interleaving = "channel-miss-overlap"
+	case parkedLock && (parkedChannel || parkedStream):
+		interleaving = "lock-and-miss-park"
+	case parkedLock:
+		interleaving = "before-lock-park"
 	case parkedChannel && parkedStream:
 		interleaving = "channel-and-stream-miss-park"
 	case parkedStream:
@@ -733,7 +761,7 @@ runLoop:
 	// Without a parked handler the run IS the sequential delivery ref1 (same order, one upload at a time), so
 	// everything must be equal to ref1. With overlapped handlers the equivalent order is not unique: equality
 	// is then demanded only where the two reference orders agree.
-	anyPark := parkedChannel || parkedStream
+	anyPark := parkedChannel || parkedStream || parkedLock
 	exact := !anyPark || refAgree
 	if exact {
 		res.Count("probe.reference-fixed")
